@@ -161,6 +161,43 @@ def semantic_check(pid):
         for r in results:
             r['src'] = src_of.get(r['name'])
         stats, diffs = classify(cx, pid, spec, results)
+        if pid == 'C11':
+            # failing-input search for the table obligations: the opcode sample whose declared effect deviates
+            import extract, re as _re
+            rows, _errs = extract.op_rows()
+            spec = {}
+            for m in _re.finditer(r'\("((?:[^"\\]|\\.)*)", "([^"]*)", "((?:[^"\\]|\\.)*)", (\d+), (\d+), (\d+), (\d+)\)', open(os.path.join(ROOT, 'lean', 'TealerModel', 'Spec', 'OpTable.lean')).read()):
+                spec[m.group(1).replace('\\"', '"').replace('\\\\', '\\')] = (m.group(2), int(m.group(4)), int(m.group(5)), int(m.group(6)), int(m.group(7)))
+            def fam_spec(op, a):
+                n = max(a, 0)
+                return {'dig': (n + 1, n + 2), 'cover': (n + 1, n + 1), 'uncover': (n + 1, n + 1), 'bury': (n + 1, n), 'popn': (n, 0), 'dupn': (1, n + 1),
+                        'frame_dig': (0, 1), 'frame_bury': (1, 0), 'pushints': (0, n), 'pushbytess': (0, n), 'switch': (1, 0), 'match': (n + 1, 0), 'proto': (0, 0)}.get(op)
+            for (g, l, cls, txt, po, pu, ver, mode) in rows:
+                if g == 'family':
+                    w = l.split(); op = w[0]
+                    a = len(w) - 1 if op in ('pushints', 'pushbytess', 'switch', 'match') else int(w[1])
+                    if op == 'frame_bury' or (op in ('switch', 'match') and a == 0):
+                        # known deviations F13 / F14: reported while they persist
+                        if fam_spec(op, a) != (po, pu):
+                            fid = 'F13' if op == 'frame_bury' else 'F14'
+                            what = next((f['what'] for f in cx.findings if f['id'] == fid), '')
+                            cx.known_seen[fid] = f"{what} [`{l}` declared pop {po} / push {pu}]"
+                        continue
+                    if fam_spec(op, a) != (po, pu):
+                        cx.violations.append({'kind': 'stack-effect', 'program': l, 'prop': 'C11', 'field': 'effect', 'where': l,
+                                              'detail': f"`{l}` is declared pop {po} / push {pu}; the AVM effect is pop {fam_spec(op, a)[0]} / push {fam_spec(op, a)[1]}", 'src': l, 'env': None})
+                elif l in spec and spec[l] != (cls, po, pu, ver, mode):
+                    cx.violations.append({'kind': 'stack-effect', 'program': l, 'prop': 'C11', 'field': 'effect', 'where': l,
+                                          'detail': f"`{l}` parses to class/pops/pushes/version/mode {(cls, po, pu, ver, mode)}; the specification table has {spec[l]}", 'src': l, 'env': None})
+            cx.evaluations += len(rows)
+            # the model's operand reconstruction is, by theorem C11_sim_step, the instrumented concrete stack of the
+            # block: an instruction whose reconstructed operands differ from it IS a failing input of C11
+            for r, rel in diffs:
+                if 'ast' in rel:
+                    only_impl, only_model = rel['ast'][0], rel['ast'][1]
+                    cx.violations.append({'kind': 'operand-attribution', 'program': r['name'], 'prop': 'C11', 'field': 'ast', 'where': (only_impl or only_model or ['?'])[0],
+                                          'detail': f"tool reconstructs {only_impl[:3]} where the concrete stack gives {only_model[:3]} (format: ast <block> <instruction position> <producer position>.<output index> ...)",
+                                          'src': r['src'], 'env': None})
         # correspondence breaks: the tie between model and code no longer holds for what this property consumes
         if diffs:
             cx.broken.append(f"correspondence ({'/'.join(sorted(spec['phases']))}) differs on {len(diffs)} of {len(results)} programs, e.g. {diffs[0][0]['name']}: "
